@@ -10,6 +10,7 @@ EXTENDS Naturals, Sequences, FiniteSets, TLC, Json
 
 CONSTANTS Keys, Vals, MaxList
 
+CONSTANT SampleT
 VARIABLES o, viaDe, last
 vars == <<o, viaDe, last>>
 
@@ -90,5 +91,6 @@ OneIsOne   == o.tag = "one" => Len(o.items) = 1
 CtorSingletonBare == (o.tag = "set" /\ Len(o.items) = 1) => viaDe
 
 View == <<o, viaDe>>
-EmitT == PrintT(<<"CASE", ToJson(last')>>)
+\* emit every transition (SampleT = 1) or a random 1/SampleT of them (all are model-checked either way)
+EmitT == RandomElement(1..SampleT) # 1 \/ PrintT(<<"CASE", ToJson(last')>>)
 =============================================================================
